@@ -32,7 +32,7 @@ ASSUMPTIONS = [
     "default.tensor(method='mps') with contract 'swap+split' / 'nonlocal' is only compared on circuits whose device-level gates act on <= 2 wires (quimb limitation).",
     "Known default.clifford defects recorded under C70 carry the same features / sig prefixes here.",
 ]
-BUDGET = {"quick": {"examples": 330}, "thorough": {"examples": 25000, "shards": 16}}
+BUDGET = {"quick": {"examples": 260}, "thorough": {"examples": 25000, "shards": 16}}
 SHRINK_LISTS = ("ops", "meas")
 
 ENT2 = {"CNOT", "CZ", "CY", "CH", "SWAP", "ISWAP", "SISWAP", "ECR", "CRX", "CRY", "CRZ", "CRot", "IsingXX", "IsingYY", "IsingZZ", "IsingXY", "PSWAP",
@@ -163,6 +163,16 @@ def _null(draw):
 
 def strategy(tier):
     return st.one_of(_mixed(), _mixed(), _reference(), _reference(), _tensor(), _tensor(), _tensor(), _clifford(), _clifford(), _null())
+
+
+def enumerate_cases(tier):
+    # default.clifford: C70's gate-table cases (every native gate on a generic stabilizer state, both wire orders) against default.qubit
+    for c in c70.enumerate_cases(tier):
+        if c["kind"] != "analytic":
+            continue
+        meas = [m for m in c["meas"] if not (c["tableau"] and m["mp"] == "state")]
+        if meas:
+            yield {"target": {"name": "default.clifford", "tableau": c["tableau"]}, "ops": c["ops"], "meas": meas, "wires": c["wires"], "dev_wires": c["dev_wires"], "shots": None}
 
 
 # ----------------------------------------------------------------------------------------------
@@ -302,7 +312,7 @@ def check(spec):
             pre = "stateprep:" if feats.get("stateprep") else ("idle-tail:" if feats.get("idle_tail") else "")
             if feats.get("projector_no_tableau") and m["mp"] == "expval" and m["obs"]["op"] == "Projector":
                 pre = "projector-no-tableau:"
-            if name == "ProbabilityMP" and not tgt["tableau"] and c70._unsorted_int(tape_t):
+            if name == "ProbabilityMP" and (not tgt["tableau"] or not len(mp.wires)) and c70._unsorted_int(tape_t):
                 pre = "probs-unsorted:"
                 f2["probs_unsorted"] = True
         if nm == "reference.qubit":
@@ -311,7 +321,7 @@ def check(spec):
             elif feats.get("ref_labels_not_positions") and m["mp"] in ("vn_entropy", "mutual_info", "purity"):
                 pre = "entropy-labels:"
         if nm == "default.tensor":
-            pre = "partial-prep:" if feats.get("partial_prep") else ("mps-multirz:" if feats.get("mps_multirz") and name == "VarianceMP" else "")
+            pre = "partial-prep:" if feats.get("partial_prep") else ("mps-multirz:" if feats.get("mps_multirz") and name in ("VarianceMP", "ExpectationMP") else "")
         if nm == "reference.qubit" and batch == 1 and m.get("obs") and m["obs"]["op"] in ("s_prod", "sum", "lincomb") and not pre:
             pre = "batch1-sum:"
             f2["ref_batch1_sum"] = True
